@@ -228,6 +228,10 @@ def fired(events):
     return out
 
 
+class ForkServerGone(Exception):
+    """The parked process did not answer (machine overloaded, or it died): callers fall back to a fresh exec."""
+
+
 class ForkServer:
     """One parked copy of the binary (argv fixed) that forks a fresh child per run directory -- see procsim.c.
     Results have the same shape as run_case(); stdout/stderr/stdin are files instead of pipes."""
@@ -260,7 +264,7 @@ class ForkServer:
                 return None
             chunk = os.read(self.st_r, 4096)
             if not chunk:
-                raise build.HarnessError("fork server died")
+                raise ForkServerGone("fork server died")
             self.buf += chunk
         line, self.buf = self.buf.split(b"\n", 1)
         return line.decode()
@@ -285,9 +289,9 @@ class ForkServer:
                 with open(os.path.join(d, ".stdin"), "wb") as f:
                     f.write(dec(case["stdin"]))
             os.write(self.ctl_w, (d + "\n").encode())
-            pl = self._readline(10.0)
+            pl = self._readline(120.0)
             if pl is None or not pl.startswith("P "):
-                raise build.HarnessError("fork server protocol error: %r" % pl)
+                raise ForkServerGone("fork server did not answer: %r" % pl)
             pid = int(pl[2:])
             sl = self._readline(timeout)
             timed_out = False
